@@ -94,6 +94,9 @@ class Explorer:
         t0 = time.time()
         r = self.solver.check(prop)
         self.qtime += time.time() - t0
+        from vf import smt2dump
+        if smt2dump.wanted(str(r)):
+            smt2dump.maybe_dump(list(self.solver.assertions()) + [prop], str(r), time.time() - t0, "pysym")
         if r == z3.sat:
             return "sat", self.solver.model()
         if r == z3.unknown:
